@@ -18,7 +18,7 @@ pub struct Utt {
 pub fn utterances(corpus: &Corpus) -> Vec<Utt> {
     vec![
         Utt { lines: corpus.lines[0..3].to_vec() },
-        Utt { lines: corpus.lines[40..42].to_vec() },
+        Utt { lines: if corpus.extras.len() >= 3 { corpus.extras[0..3].to_vec() } else { corpus.lines[40..42].to_vec() } },
         Utt { lines: vec![corpus.lines[7].clone(), corpus.lines[300].clone(), corpus.lines[8].clone(), corpus.lines[1455].clone()] },
     ]
 }
